@@ -112,7 +112,7 @@ prop("C02", harness="C02",
 )
 
 prop("C18",
-     coq=["gen/Extracted.v", "model/Queue.v", "proofs/QueueProofs.v", "chk/C18chk.v", "props/C18.v"],
+     coq=["gen/Extracted.v", "model/Queue.v", "proofs/QueueProofs.v", "model/Prims.v", "proofs/PrimsProofs.v", "chk/C18chk.v", "props/C18.v", "refute/C18.v"],
      n={"quick": 300, "thorough": 6000, "search": 900},
      shard=25,
      shrink_fields=["ops"],
@@ -125,8 +125,11 @@ prop("C18",
      level_text="Theorem (coq/props/C18.v): the ring buffer of types/queue.go refines the list FIFO for EVERY operation sequence (unbounded length: every growth/shrink threshold), "
                 "with the invariant capacity = 2^k (k>=4, the constant minQueueLen is re-extracted from the source on every run); proved via the rotation view and the bit-mask = modulo lemma. "
                 "Since every Go method holds the mutex for its whole body, concurrent executions are interleavings of these atomic operations. "
-                "Partial: OnceWait and Pool are NOT yet modelled as transition systems; their contracts are checked on recorded executions by Coq oracle functions (support, not proof); the Go memory model is trusted.",
-     level_note="Trusted: Coq kernel + vm_compute; hand translation of queue.go; tools/goextract (minQueueLen); sync.RWMutex/Go memory model; the OnceWait/Pool oracles are tests.",
+                "OnceWait.Do and Pool are small-step machines (model/Prims.v: one mutex / compare-and-swap / WaitGroup / channel operation per step, any number of threads, explicit scheduler): for EVERY schedule the action is entered at most once "
+                "and a caller that has returned has seen it finished (C18_oncewait_once_and_waits), some caller can always move until all have returned (C18_oncewait_progress; refute/C18.v: without the mutex a late caller returns before the action started); "
+                "the pool's live workers = semaphore tokens <= size, queue <= capacity, and accepted tasks = executed + queued + about-to-run as multisets (C18_pool_bounded_and_exactly_once). "
+                "These two machines are tied to the code by recorded concurrent executions judged by the oracle functions of chk/C18chk.v (not by a step-by-step replay); the Go memory model is trusted.",
+     level_note="Trusted: Coq kernel + vm_compute; hand translation of queue.go, OnceWait.Do and pool.go; tools/goextract (minQueueLen); sync.Mutex / sync.WaitGroup / channel semantics as modelled; the Go memory model.",
      trusted_base=["sync.RWMutex and the Go memory model", "tools/goextract: minQueueLen"],
      assumptions=["each Queue method is atomic (holds the mutex for its whole body)"],
 )
